@@ -446,6 +446,12 @@ func scriptedServer(conn net.Conn, suite uint16, sendCR, tk bool, packing string
 }
 
 func rPair(victim func(conn net.Conn) *gmtls.Conn, attacker func(conn net.Conn) string) (res, detail string) {
+	return rPairPost(victim, attacker, nil)
+}
+
+// rPairPost: post (if any) runs on the victim's connection after Handshake returned nil; its token is appended to
+// the observation ("ok pt=1"); a failed handshake of such a case is reported as "err pt=0".
+func rPairPost(victim func(conn net.Conn) *gmtls.Conn, attacker func(conn net.Conn) string, post func(c *gmtls.Conn) string) (res, detail string) {
 	grp := newRGroup(2, 4*time.Second)
 	a, b := newRPipe(grp)
 	var wg sync.WaitGroup
@@ -460,12 +466,20 @@ func rPair(victim func(conn net.Conn) *gmtls.Conn, attacker func(conn net.Conn) 
 				a.Close()
 			}
 		}()
-		if err := victim(a).Handshake(); err != nil {
+		vc := victim(a)
+		if err := vc.Handshake(); err != nil {
 			vres, verr = "err", err.Error()
+			if post != nil {
+				vres = "err pt=0"
+			}
 			a.Close()
 			return
 		}
 		vres = "ok"
+		if post != nil {
+			verr = fmt.Sprintf("HandshakeComplete=%v", vc.ConnectionState().HandshakeComplete)
+			vres = "ok " + post(vc)
+		}
 	}()
 	go func() {
 		defer wg.Done()
@@ -531,6 +545,15 @@ func runR(f []string) (string, string) {
 		cfg := &gmtls.Config{RootCAs: E.pool, ServerName: "localhost", MaxVersion: uint16(chv), CipherSuites: []uint16{tsuite},
 			SessionTicketsDisabled: true}
 		cfg.Time = func() time.Time { return fixedNow }
+		if rn, has := kvOf(f[4])["rn"]; has { // round 10: Config.Renegotiation, observation with the pt token
+			n, _ := strconv.Atoi(rn)
+			cfg.Renegotiation = gmtls.RenegotiationSupport(n)
+			return rPairPost(
+				func(conn net.Conn) *gmtls.Conn { return gmtls.Client(conn, cfg) },
+				func(conn net.Conn) string {
+					return thenPlainApp(conn, uint16(chv), scriptedTLSServer(conn, tsuite, uint16(chv), f[6]))
+				}, readPlainApp)
+		}
 		return rPair(
 			func(conn net.Conn) *gmtls.Conn { return gmtls.Client(conn, cfg) },
 			func(conn net.Conn) string { return scriptedTLSServer(conn, tsuite, uint16(chv), f[6]) })
@@ -581,6 +604,15 @@ func runR(f []string) (string, string) {
 		}
 		if cc {
 			cfg.Certificates = []gmtls.Certificate{E.auth}
+		}
+		if rn, has := kv["rn"]; has {
+			n, _ := strconv.Atoi(rn)
+			cfg.Renegotiation = gmtls.RenegotiationSupport(n)
+			return rPairPost(
+				func(conn net.Conn) *gmtls.Conn { return gmtls.Client(conn, cfg) },
+				func(conn net.Conn) string {
+					return thenPlainApp(conn, versGM, scriptedServer(conn, suite, cr, tk, f[6]))
+				}, readPlainApp)
 		}
 		return rPair(
 			func(conn net.Conn) *gmtls.Conn { return gmtls.Client(conn, cfg) },
